@@ -23,7 +23,11 @@ pub fn len_check(vt: &VT, shape: &Shape, v: &Value) -> Result<u64, String> {
 	if ref_enc(shape, v).is_err() {
 		return Ok(0);
 	}
-	let enc = guarded(|| (vt.encode)(v)).map_err(|p| format!("encode panicked: {}", p))?;
+	// huge collections of zero-width elements are not materialised: their encoding is the count alone
+	let enc = match v {
+		Value::Rep(n) if *n > 1 << 20 => ref_enc(shape, v).map_err(|e| format!("{:?}", e))?,
+		_ => guarded(|| (vt.encode)(v)).map_err(|p| format!("encode panicked: {}", p))?,
+	};
 	let want = logical_len(shape, v).ok_or("no logical length")?;
 	match guarded(|| f(&enc)) {
 		Err(p) => Err(format!("DecodeLength::len panicked: {}", p)),
@@ -83,6 +87,33 @@ pub fn run(tier: Tier, reg: &[VT]) -> Report {
 			}
 		}
 	});
+	// counts that need the 4- and 5-byte prefix: collections of zero-width elements are complete
+	// encodings consisting of the count alone, so no 2^30-element collection has to be built
+	let mut acc = acc;
+	for vt in lens.iter().filter(|v| matches!((v.shape)(), Shape::Seq(k, ref e) if e.zero_width() && !matches!(k, refmodel::SeqKind::Set))) {
+		let f = vt.len.unwrap();
+		for n in [16383u64, 16384, (1 << 30) - 1, 1 << 30, (1 << 30) + 1, 1 << 31, u32::MAX as u64 - 1, u32::MAX as u64] {
+			let mut enc = vec![];
+			refmodel::enc_compact(n as u128, &mut enc);
+			acc.evaluations += 1;
+			acc.transitions += 1;
+			match guarded(|| f(&enc)) {
+				Ok(Ok(got)) if got as u64 == n => {
+					acc.states += 1;
+					acc.traces += 1;
+					acc.nontrivial += 1;
+					acc.outcome("len-class-big");
+				},
+				other => acc.violate(Violation {
+					property: "C18".into(),
+					sub: "C18.len".into(),
+					key: format!("C18|{}|decode-length", vt.name),
+					detail: format!("DecodeLength::len of a collection of {} zero-width elements (encoding {}) returned {:?}", n, hex(&enc), other),
+					case: json!({"sub": "C18.len", "type": vt.name, "value": value_to_json(&Value::Rep(n))}),
+				}),
+			}
+		}
+	}
 	rep.part("DecodeLength", "every DecodeLength registry type (collections and tuples led by them) x boundary values: len(encoded) == number of elements", acc);
 
 	let types: Vec<&VT> = reg.iter().collect();
